@@ -49,6 +49,14 @@ def _copy_isolated(c, origin):
         chain = mk_chain(c, [outer_ns, global_data] if origin.startswith("partial") else [outer_ns, rf["scope"]])
         outer = [outer_ns.addr, rf["locals"].addr, rf["scope"].addr, rf["counters"].addr, rf["tag_namespace"].addr, rf["loops"].addr, chain.addr]
         parent = root
+        if origin == "partial-in-partial":
+            # root -> isolated copy (arguments of an enclosing render tag) -> isolated copy -> this copy:
+            # the enclosing tag's arguments must not leak into the innermost partial
+            mid_ns = c.dict("enclosing_enclosing_arguments")
+            mid_chain = mk_chain(c, [mid_ns, global_data])
+            parent = mk_ctx(c, env, globals=mid_chain, parent_context=root, locals=c.dict("locals_mid"), counters=c.dict("counters_mid"), loops=c.list("loops_mid"))
+            mf = c.st.deref(parent).fields
+            outer += [mid_ns.addr, mid_chain.addr, mf["locals"].addr, mf["scope"].addr, mf["counters"].addr, mf["tag_namespace"].addr, mf["loops"].addr]
         if origin == "partial-in-block":
             # root -> block-scoped copy -> isolated copy (a partial rendered from a block body)
             mid_ns = c.dict("block_namespace")
@@ -90,7 +98,7 @@ def _copy_isolated(c, origin):
     c.replay("code", code=REPLAY_NESTED if origin != "root" else REPLAY)
 
 
-for _origin in ("root", "partial", "block", "partial-in-block"):
+for _origin in ("root", "partial", "block", "partial-in-block", "partial-in-partial"):
     contract(CTX + ".copy", prop="C15", name=f"copy[isolated: block_scope=False, caller={_origin}]")(lambda c, o=_origin: _copy_isolated(c, o))
 
 
@@ -286,9 +294,11 @@ def run(m):
     from liquid import DictLoader, Environment
     env = Environment(extra=True, loader=DictLoader({"p": "[{{ a }}{{ secret }}]", "outer": "{% render 'p' %}",
           "base": "{% assign secret = 'S' %}{% block b %}{% endblock %}", "child": "{% extends 'base' %}{% block b %}{% render 'p' %}{% endblock %}"}))
+    env.loader.templates.update({"l1": "{% render 'l2', a: 'A' %}", "l2": "{% render 'l3' %}", "l3": "{% render 'p' %}"})
     out = [env.from_string("{% render 'outer', a: 'A' %}").render(), env.get_template("child").render(),
-           env.from_string("{% macro m a %}{% render 'p' %}{% endmacro %}{% call m 'A' %}").render()]
-    return {"violated": out != ["[]", "[]", "[]"], "observed": out}
+           env.from_string("{% macro m a %}{% render 'p' %}{% endmacro %}{% call m 'A' %}").render(),
+           env.from_string("{% render 'l1' %}").render(), env.from_string("{% render 'l2', a: 'A' %}").render()]
+    return {"violated": out != ["[]"] * 5, "observed": out}
 '''
 
 REPLAY = r'''
